@@ -1,17 +1,29 @@
 """C19 — interrupted writes and truncated files never yield points that were not written.
-Model: read_file of Model/Las.v on crash images / truncations (theorems truncation_safe, crash_safe); the write discipline the
-theorems assume (header with count 0 first, points appended in order, EVLRs, in-place header rewrite of identical length) is
-checked on the traces recorded from the implementation. Correspondence: read_file vs laspy.read on every image. Search:
-laspy.read of each image compared with the intended point sequence."""
+Model: read_file of Model/Las.v on crash images / truncations (theorems truncation_safe, crash_safe, crash_safe_append, fault_safe); the
+write discipline the theorems assume (header with count 0 first, points appended in order, EVLRs, in-place header rewrite of identical
+length; after a failed low-level write the next write starts where the failed one started) is checked on the traces recorded from the
+implementation. Correspondence: read_file vs laspy.read on every distinct image. Search: laspy.read (under a timeout: reading must TERMINATE)
+of each image compared with the point sequence the session accepted; a sample of the images is also read through the other public routes
+(laspy.open with read_evlrs=False / laz_backend=() / chunk_iterator / a file on disk)."""
 import io
+import os
 import signal
+import tempfile
 
 import numpy as np
 
-from harness import common, lasio, sessions
+from harness import common, lasio
 
 ASSUMPTIONS = ["a write is torn at a byte boundary; bytes beyond the torn point keep their previous content",
-               "what EVLRs / statistics a crash image shows is unconstrained by the property"]
+               "what EVLRs / statistics a crash image shows is unconstrained by the property",
+               "fault sequences judged: ONE low-level write of the session fails with OSError, every later write succeeds, and either (a) the failed "
+               "write stored NO byte - then the session may go on in any way (the exception leaves the with-block, or the caller catches it and issues "
+               "more chunks / the same chunk again, then closes) - or (b) it stored a prefix of its bytes (torn) and the session performs no further "
+               "point write: only close() / __exit__ (which re-emit the EVLRs and rewrite the header) or nothing at all (a crash image). A torn write "
+               "that stored bytes FOLLOWED BY MORE POINT WRITES of the same session is outside the property as stated (an interrupted session is a "
+               "prefix of the write trace; laspy does not seek back over the bytes a failed write left) and is not judged"]
+
+READ_LIMIT = 4.0          # seconds granted to one laspy.read of an image of a few KB (a normal read takes < 1 ms)
 
 
 class Timeout(Exception):
@@ -22,24 +34,83 @@ def _alarm(signum, frame):
     raise Timeout()
 
 
-def read_image(img, limit=10):
-    """('ok', point bytes, psize) | ('err', kind) | ('hang',)"""
-    import laspy
-    signal.signal(signal.SIGALRM, _alarm)
-    signal.alarm(limit)
+_HANGS = [0]
+
+
+def _with_timeout(fn, limit):
+    """('ok', value) | ('err', kind) | ('hang',). After the first hang the remaining reads get a short limit: the verdict is already
+    a failing input, the run must not take hours."""
+    if _HANGS[0] >= 6:
+        return ("skipped",)
+    lim = limit if _HANGS[0] == 0 else 0.4
+    old = signal.signal(signal.SIGALRM, _alarm)
+    signal.setitimer(signal.ITIMER_REAL, lim)
     try:
-        las = laspy.read(io.BytesIO(img))
-        return ("ok", lasio.rec_bytes(las.points), las.header.point_format.size)
+        return ("ok", fn())
     except Timeout:
+        _HANGS[0] += 1
         return ("hang",)
     except Exception as ex:
         return ("err", common.exc_kind(ex))
     finally:
-        signal.alarm(0)
+        signal.setitimer(signal.ITIMER_REAL, 0)
+        signal.signal(signal.SIGALRM, old)
+
+
+def _read_plain(img):
+    import laspy
+    las = laspy.read(io.BytesIO(img))
+    return (lasio.rec_bytes(las.points), las.header.point_format.size)
+
+
+def _read_route(img, route):
+    """the other public ways of reading the same bytes: they must obey the same rule"""
+    import laspy
+    if route == "open(read_evlrs=False)":
+        with laspy.open(io.BytesIO(img), read_evlrs=False) as rd:
+            las = rd.read()
+            return (lasio.rec_bytes(las.points), rd.header.point_format.size)
+    if route == "open(laz_backend=())":
+        with laspy.open(io.BytesIO(img), laz_backend=(), closefd=False) as rd:
+            las = rd.read()
+            return (lasio.rec_bytes(las.points), rd.header.point_format.size)
+    if route == "open(bytes)":
+        with laspy.open(bytes(img)) as rd:
+            las = rd.read()
+            return (lasio.rec_bytes(las.points), rd.header.point_format.size)
+    if route == "chunk_iterator":
+        with laspy.open(io.BytesIO(img)) as rd:
+            ps = rd.header.point_format.size
+            return (b"".join(lasio.rec_bytes(c) for c in rd.chunk_iterator(3)), ps)
+    if route == "path":
+        fd, p = tempfile.mkstemp(suffix=".las", dir="/var/tmp")
+        try:
+            with os.fdopen(fd, "wb") as f:
+                f.write(img)
+            las = laspy.read(p)
+            return (lasio.rec_bytes(las.points), las.header.point_format.size)
+        finally:
+            os.unlink(p)
+    raise ValueError(route)
+
+
+ROUTES = ["open(read_evlrs=False)", "chunk_iterator", "open(laz_backend=())", "open(bytes)", "path"]
+_CACHE = {}
+
+
+def read_image(img, limit=READ_LIMIT):
+    """('ok', point bytes, psize) | ('err', kind) | ('hang',) | ('skipped',) - cached by image bytes"""
+    r = _CACHE.get(img)
+    if r is None:
+        t = _with_timeout(lambda: _read_plain(img), limit)
+        r = ("ok", t[1][0], t[1][1]) if t[0] == "ok" else t
+        _CACHE[img] = r
+    return r
 
 
 def apply_trace(base, trace, k, j):
     buf = bytearray(base)
+
     def wr(pos, bs):
         if pos > len(buf):
             buf.extend(b"\0" * (pos - len(buf)))
@@ -52,65 +123,117 @@ def apply_trace(base, trace, k, j):
     return bytes(buf)
 
 
-TEMPLATES = [("write", None, None), ("chunked", None, None), ("append", None, None), ("append", "1.4", True), ("chunked", "1.4", True),
-             ("write", "1.4", True), ("append", "1.4", True), ("chunked", "1.2", False), ("append", "1.1", False), ("write", "1.3", False)]
+# (kind, version, EVLRs wanted (None = random), VLRs forced)
+TEMPLATES = [(k, v, None, True) for v in lasio.VERSIONS for k in ("write", "chunked", "append")] + \
+            [("chunked", "1.4", True, False), ("append", "1.4", True, False), ("write", "1.4", True, True), ("append", None, None, False), ("chunked", None, None, False)]
 
 
 def gen_session(ctx, template=None):
-    """returns dict(kind, base, trace, intended point bytes, psize, desc)"""
+    """returns dict(kind, base, trace, intended point bytes (what the session accepted), psize, desc, final)"""
     import laspy
     from laspy.lasappender import LasAppender
+    from laspy.vlrs.vlrlist import VLRList
     rng = ctx.rng
-    kind, ver, want_evl = template or (rng.choice(["write", "chunked", "chunked", "append"]), None, None)
-    h = lasio.rand_header(rng, version=ver)
+    kind, ver, want_evl, want_vlrs = template or (rng.choice(["write", "chunked", "chunked", "append"]), None, None, False)
+    h = lasio.rand_header(rng, version=ver, nvlrs=rng.choice([1, 2, 3]) if want_vlrs else None)
     if rng.random() < 0.25:
         lasio.add_extra_dims(rng, h, 1)
+    enc = {}
+    if rng.random() < 0.25:
+        # header strings / VLR descriptions that are not ASCII (laspy hands them back as bytes); they can only be written with a lenient
+        # encoding_errors, which must change nothing else
+        lasio.make_nonascii(rng, h)
+        enc = {"encoding_errors": rng.choice(["ignore", "replace"])}
     ps = h.point_format.size
     evl = None
     if h.version.minor >= 4 and (want_evl or (want_evl is None and rng.random() < 0.6)):
-        evl = laspy.vlrs.vlrlist.VLRList([lasio.rand_vlr(rng, 120) for _ in range(rng.choice([1, 2]))])
-    desc = {"kind": kind, "version": str(h.version), "format": h.point_format.id, "evlrs": len(evl or []), "vlrs": len(h.vlrs), "stale_count": int(h.point_count)}
-    if kind == "write":
+        evl = VLRList([lasio.rand_vlr(rng, 120) for _ in range(rng.choice([1, 2]))])
+    desc = dict(lasio.describe_header(h), kind=kind, evlrs=len(evl or []), stale_count=int(h.point_count), open_kwargs=dict(enc))
+    if kind == "write" and not enc:
         n = rng.choice([0, 1, 3, 9])
-        las = laspy.LasData(header=h, points=lasio.rand_points(rng, h, n, "random"))
+        las = laspy.LasData(header=h, points=lasio.sweep_points(rng, h, n))
         if evl is not None:
             las.evlrs = evl
-        st = sessions.LogStream()
+        st = lasio.LogStream2()
         las.write(st)
         return dict(kind=kind, base=b"", trace=st.trace, intended=lasio.rec_bytes(las.points), ps=ps, desc=dict(desc, points=n), final=st.getvalue())
-    if kind == "chunked":
-        st = sessions.LogStream()
-        w = laspy.LasWriter(st, h, closefd=False)
-        pts = b""
-        sizes = []
-        for _ in range(rng.randrange(1, 5)):
-            c = lasio.rand_points(rng, h, rng.choice([0, 1, 2, 5]), "random")
-            w.write_points(c)
-            pts += lasio.rec_bytes(c)
-            sizes.append(len(c))
-        if evl is not None:
+    if kind in ("chunked", "write"):
+        # any order of calls the API accepts or refuses: chunks (also empty), the EVLRs, chunks AFTER the EVLRs and after close (refused: they
+        # must leave no trace), close; what counts is what write_points accepted
+        st = lasio.LogStream2()
+        via = rng.choice(["class", "open"])
+        w = lasio.open_writer(st, h, via, enc)
+        pts, shape = b"", []
+        state = "open"
+        for _ in range(rng.randrange(1, 7)):
+            r = rng.random()
+            if r < 0.7 or (state != "open" and r < 0.9):
+                c = lasio.sweep_points(rng, h, rng.choice([0, 1, 2, 5]), start=rng.randrange(16))
+                try:
+                    w.write_points(c)
+                    if len(c):
+                        pts += lasio.rec_bytes(c)
+                    shape.append(f"P{len(c)}")
+                except Exception as ex:
+                    shape.append(f"P{len(c)}!{common.exc_kind(ex)}")
+            elif r < 0.85 and state == "open" and evl is not None:
+                w.write_evlrs(evl)
+                shape.append(f"E{len(evl)}")
+                state = "evlrs"
+            elif r >= 0.9 and state != "closed":
+                w.close()
+                shape.append("C")
+                state = "closed"
+        if state == "open" and evl is not None and rng.random() < 0.7:
             w.write_evlrs(evl)
-        w.close()
-        return dict(kind=kind, base=b"", trace=st.trace, intended=pts, ps=ps, desc=dict(desc, chunks=sizes), final=st.getvalue())
+            shape.append(f"E{len(evl)}")
+            if rng.random() < 0.5:
+                c = lasio.sweep_points(rng, h, rng.choice([1, 3]))
+                try:
+                    w.write_points(c)
+                    pts += lasio.rec_bytes(c)
+                    shape.append(f"P{len(c)}")
+                except Exception as ex:
+                    shape.append(f"P{len(c)}!{common.exc_kind(ex)}")
+        if state != "closed":
+            w.close()
+            shape.append("C")
+        return dict(kind="chunked", base=b"", trace=st.trace, intended=pts, ps=ps, desc=dict(desc, kind="chunked", via=via, ops=shape), final=st.getvalue())
     # append
-    A = lasio.rand_points(rng, h, rng.choice([0, 1, 4]), "random")
-    if rng.random() < 0.2:
+    A = lasio.sweep_points(rng, h, rng.choice([0, 1, 4]))
+    if rng.random() < 0.2 and not enc:
         # a legal file laspy did not write: a WKT record padded with several NULs, which laspy re-serialises SHORTER (one NUL).
         # The in-place header rewrite of the append then cannot keep its size: whatever the appender does, the points must stay readable
         h.vlrs.append(laspy.VLR("LASF_Projection", 2112, "", b'GEOGCS["WGS 84"]' + bytes(rng.choice([2, 4, 7]))))
         desc["padded_wkt_vlr"] = True
-    raw0 = lasio.write_las(h, A, evl)
+    b0 = io.BytesIO()
+    with lasio.open_writer(b0, h, "class", enc) as w0:
+        if len(A):
+            w0.write_points(A)
+        if evl:
+            w0.write_evlrs(evl)
+    raw0 = b0.getvalue()
     if evl and rng.random() < 0.5:
         gp = rng.choice([1, ps, 2 * ps + 3])
         raw0 = lasio.with_gap(raw0, gp, fill=rng.choice([0x00, 0xAA])) or raw0
         desc["gap"] = gp
-    st = sessions.LogStream(raw0)
-    ap = LasAppender(st, closefd=False)
+    st = lasio.LogStream2(raw0)
+    via = rng.choice(["class", "open"])
+    akw = dict(enc)
+    if via == "open" and rng.random() < 0.5:
+        akw["laz_backend"] = rng.choice([None, ()])
+    try:
+        ap = laspy.open(st, mode="a", closefd=False, **akw) if via == "open" else LasAppender(st, closefd=False, **akw)
+    except Exception as ex:
+        if st.getvalue() != raw0 or st.trace:
+            raise
+        # an original the appender cannot re-write (padded WKT record) refused before anything was touched: nothing to interrupt
+        return dict(kind=kind, base=raw0, trace=[], intended=lasio.rec_bytes(A), ps=ps, desc=dict(desc, refused_at_open=type(ex).__name__), final=raw0, refused=True)
     st.trace.clear()
     pts = lasio.rec_bytes(A)
     sizes = []
     for ci in range(rng.randrange(1 if template else 0, 4)):
-        c = lasio.rand_points(rng, h, rng.choice([0, 1, 3]) if ci else rng.choice([1, 3, 6]), "random")
+        c = lasio.sweep_points(rng, h, rng.choice([0, 1, 3]) if ci else rng.choice([1, 3, 6]), start=rng.randrange(16))
         ap.append_points(c)
         pts += lasio.rec_bytes(c)
         sizes.append(len(c))
@@ -118,12 +241,13 @@ def gen_session(ctx, template=None):
         ap.close()
     except Exception as ex:
         desc["close_raised"] = type(ex).__name__
-    return dict(kind=kind, base=raw0, trace=st.trace, intended=pts, ps=ps, desc=dict(desc, orig=len(A), chunks=sizes), final=st.getvalue())
+    return dict(kind=kind, base=raw0, trace=st.trace, intended=pts, ps=ps, desc=dict(desc, via=via, open_kwargs={k: repr(v) for k, v in akw.items()}, orig=len(A), chunks=sizes), final=st.getvalue())
 
 
 def images_of(ctx, s):
     """(label, image) for crash points at every write-call boundary and torn inside every write (every byte for writes of at
-    most 48 bytes - the header is written field by field -, a dense sample otherwise), and truncations of the complete file"""
+    most 48 bytes - the header is written field by field -, a dense sample otherwise), and truncations of the complete file: EVERY length
+    from 0 to offset_to_point_data + 2 records and from the last 2 records to the end (EVLR area included), a sample in between"""
     tr = s["trace"]
     out = []
     for k in range(len(tr) + 1):
@@ -139,7 +263,17 @@ def images_of(ctx, s):
         for j in js:
             out.append((f"write {k} torn at {j}", apply_trace(s["base"], tr, k, j)))
     fin = s["final"]
-    lens = range(len(fin)) if (ctx.thorough() or len(fin) <= 700) else sorted(set(list(range(0, 420)) + [ctx.rng.randrange(len(fin)) for _ in range(200)] + list(range(len(fin) - 70, len(fin)))))
+    ps = s["ps"]
+    try:
+        d = lasio.parse_raw(fin)
+        off, endp = d["offset"], d["offset"] + d["count"] * d["psize"]
+    except ValueError:
+        off, endp = 420, len(fin)
+    if ctx.thorough() or len(fin) <= 900:
+        lens = range(len(fin) + 1)
+    else:
+        lens = sorted(set(list(range(0, min(len(fin), off + 2 * ps + 2))) + [ctx.rng.randrange(len(fin)) for _ in range(150)]
+                          + list(range(max(0, min(endp, len(fin)) - 2 * ps - 1), len(fin) + 1))))
     for n in lens:
         out.append((f"truncated to {n}", fin[:n]))
     return out
@@ -245,40 +379,293 @@ def nonascii_user_id(img):
     return False
 
 
+def huge_evlr_length(img):
+    """True when an EVLR length field the reader will meet (header pointer followed leniently) is >= 2**63: CPython's read() refuses
+    such a size with OverflowError where the model (unbounded integers, lengths clamped to the bytes available) reads on. Raising is
+    within the property; such images are compared on the property only."""
+    try:
+        if len(img) < 375 or img[25] < 4:
+            return False
+        pos = int.from_bytes(img[235:243], "little")
+        ne = min(int.from_bytes(img[243:247], "little"), 1000)
+        for _ in range(ne):
+            if pos + 28 > len(img):
+                return False
+            ln = int.from_bytes(img[pos + 20:pos + 28], "little")
+            if ln >= 2 ** 63:
+                return True
+            pos += 60 + ln
+    except Exception:
+        return False
+    return False
+
+
+# ---------------------------------------------------------------------------------
+# fault sequences: one low-level write fails (torn), the session goes on and is closed normally
+# ---------------------------------------------------------------------------------
+def _fault_plan(ctx, kind, volume, empty_original=False):
+    """a session description: header, chunks (total size about `volume` bytes), EVLRs, original file for an appender"""
+    from laspy.vlrs.vlrlist import VLRList
+    rng = ctx.rng
+    h = lasio.rand_header(rng, version=rng.choice(lasio.VERSIONS), nvlrs=rng.choice([0, 1, 2]))
+    ps = h.point_format.size
+    k = rng.choice([1, 2, 3, 5, 8]) if volume < 20000 else rng.choice([5, 9, 23, 47])
+    per = max(1, volume // (k * ps))
+    sizes = [max(1, per + rng.choice([-1, 0, 0, 1, 3]) * rng.randrange(1, max(2, per // 3 + 1))) for _ in range(k)]
+    if volume < 20000 and rng.random() < 0.3:
+        sizes[rng.randrange(k)] = 0
+    chunks = [lasio.sweep_points(rng, h, n, start=rng.randrange(16)) if n <= 64 else _bulk_points(rng, h, n) for n in sizes]
+    evl = VLRList([lasio.rand_vlr(rng, 80) for _ in range(rng.choice([1, 2]))]) if (h.version.minor >= 4 and rng.random() < 0.6) else None
+    plan = {"kind": kind, "header": h, "chunks": chunks, "evl": evl, "sizes": sizes}
+    if kind == "appender":
+        plan["orig"] = lasio.sweep_points(rng, h, 0 if empty_original else rng.choice([0, 2, 5]))
+        plan["base"] = lasio.write_las(h, plan["orig"], evl)
+    return plan
+
+
+def _bulk_points(rng, h, n):
+    """n records, all distinct (a counter in X, random other bytes), cheap to build for large n"""
+    import laspy
+    rec = laspy.PackedPointRecord.zeros(n, h.point_format)
+    ps = rec.array.dtype.itemsize
+    raw = np.frombuffer(rng.randbytes(n * ps), dtype=np.uint8).copy().reshape(n, ps)
+    rec.array = raw.reshape(-1).view(rec.array.dtype).copy()
+    rec.array["X"] = np.arange(n, dtype=np.int32) + rng.randrange(1 << 20)
+    return rec
+
+
+class _Len:
+    """stands for a long run of bytes of which only the length matters"""
+
+    def __init__(self, n):
+        self.n = n
+
+    def __len__(self):
+        return self.n
+
+
+def _fault_run(plan, policy, fail_at, keep):
+    """executes the plan on laspy with the fail_at-th low-level write after the open torn (keep bytes stored) - fail_at None: no fault.
+    policy 'with': the exception leaves the with-block; 'continue': the caller catches it and goes on with the next operation; 'retry': the
+    caller repeats the refused write_points once, then goes on. Returns dict(final, accepted, fault, where, trace, nwrites, base)."""
+    import laspy
+    kind, h = plan["kind"], plan["header"]
+    base = plan.get("base", b"")
+    st = lasio.LogStream2(base)
+    if kind == "writer":
+        w = laspy.open(st, mode="w", header=h, closefd=False)
+        put = w.write_points
+    else:
+        st.seek(0)
+        w = laspy.open(st, mode="a", closefd=False)
+        put = w.append_points
+    n_open = len(st.trace)
+    if fail_at is not None:
+        st.arm(fail_at, keep)
+    accepted = lasio.rec_bytes(plan["orig"]) if kind == "appender" else b""
+    where, log = None, []
+
+    def guarded(name, fn, *a):
+        nonlocal where
+        try:
+            fn(*a)
+            return True
+        except OSError:
+            if where is None:
+                where = name
+            log.append(name + "!OSError")
+            return False
+    if policy == "with":
+        try:
+            with w:
+                for c in plan["chunks"]:
+                    try:
+                        put(c)
+                    except OSError:
+                        where = "write_points"
+                        raise
+                    accepted += lasio.rec_bytes(c)
+                if kind == "writer" and plan["evl"]:
+                    try:
+                        w.write_evlrs(plan["evl"])
+                    except OSError:
+                        where = where or "write_evlrs"
+                        raise
+        except OSError:
+            where = where or "close"
+    else:
+        for c in plan["chunks"]:
+            if guarded("write_points", put, c):
+                accepted += lasio.rec_bytes(c)
+            elif policy == "retry" and guarded("write_points(retry)", put, c):
+                accepted += lasio.rec_bytes(c)
+        if kind == "writer" and plan["evl"]:
+            guarded("write_evlrs", w.write_evlrs, plan["evl"])
+        guarded("close", w.close)
+    # long data writes are kept as lengths only (the discipline check needs positions and lengths; the header fields are short)
+    slim = [(p_, b_ if len(b_) <= 4096 else _Len(len(b_))) for p_, b_ in st.trace[n_open:]]
+    return {"final": st.getvalue(), "accepted": accepted, "fault": st.fault, "where": where, "trace": slim, "nwrites": len(st.trace) - n_open,
+            "base": base, "open_trace": st.trace[:n_open]}
+
+
+def fault_discipline(plan, run):
+    """the shape of a faulted trace the theorems C19_fault_safe / C19_fault_safe_append assume (fault_trace / fault_append_trace of
+    Proofs/FaultProofs.v), checked on the recorded writes of a session whose failed write was a POINT write: every point write starts at the
+    end of the data accepted so far, the failed one too; what follows a write that stored bytes (only the closing writes: the EVLRs) lies
+    behind the accepted data; then the header, contiguously from 0, exactly up to the first point, last"""
+    f = run["fault"]
+    if f is None or not str(run["where"]).startswith("write_points"):
+        return None
+    tr = run["trace"]
+    fi = f[0] - len(run["open_trace"])
+    stored = f[3]
+    if plan["kind"] == "writer":
+        hdr0 = b"".join(b for _, b in run["open_trace"])
+        off = int.from_bytes(hdr0[96:100], "little")
+        pos = off
+    else:
+        base = run["base"]
+        d = lasio.parse_raw(base)
+        off = d["offset"]
+        pos = off + d["count"] * d["psize"]
+    for i, (p, b) in enumerate(tr):
+        if len(b) == 0 and i != fi:
+            continue
+        if p < off:
+            if p != 0:
+                return f"the header area is touched at {p}, not from 0"
+            hdr1, e = _gather_from_zero(tr, i)
+            if e != len(tr) or len(hdr1) != off:
+                return f"final header rewrite covers {len(hdr1)} bytes (the points start at {off}) or is followed by other writes"
+            return None
+        if i <= fi or stored == 0:
+            if p != pos:
+                return f"a data write at {p}, expected at the end of the accepted data {pos}"
+            if i != fi:
+                pos += len(b)
+        elif p < pos:
+            return f"after a torn write a write at {p} goes INTO the accepted data, which ends at {pos}"
+    return None
+
+
+def fault_cases(ctx):
+    """(plan, policy, run) over writer and appender sessions of several volumes (a few KB to beyond 1 MB: writers that gather chunks into
+    blocks only show their state when a block fills up), every policy, fault positions spread over the writes of the session, torn
+    lengths 0 / 1 / a third / all but one byte"""
+    out = []
+    rng = ctx.rng
+    volumes = [600, 3000, 9000, 70000, 150000, 300000] + ([1200000] if not ctx.thorough() else [1200000, 2500000, 5000000])
+    keeps = [lambda n: 0, lambda n: min(1, n), lambda n: n // 3, lambda n: max(n - 1, 0), lambda n: n // 2 + 1]
+    reps = ctx.n(2, 8)
+    for rep in range(reps):
+        for kind in ("writer", "appender"):
+            for vol in volumes + (["empty"] if kind == "appender" else []):
+                # "empty": an appender on a file that holds no point yet (its header has the zero extrema of an empty cloud), in every run
+                empty, vol = (vol == "empty"), (900 if vol == "empty" else vol)
+                if vol >= 1000000 and rep > 0:
+                    continue          # the largest sessions once per kind
+                try:
+                    plan = _fault_plan(ctx, kind, vol, empty_original=empty)
+                    dry = _fault_run(plan, "continue", None, None)
+                except Exception as ex:
+                    # the fault-free session itself cannot be run on this tree: reported by search as a failing input
+                    import traceback
+                    out.append(({"kind": kind, "header": None, "chunks": [], "evl": None, "sizes": [], "volume": vol}, "none", None,
+                                {"error": f"fault-free {kind} session of about {vol} bytes raised {type(ex).__name__}: {ex} | " + traceback.format_exc()[-300:]}))
+                    continue
+                nw = dry["nwrites"]
+                if nw == 0:
+                    continue
+                # candidate positions: the point writes are the first ones after the open; the EVLRs and the header fields follow
+                data_writes = [i for i, (p, b) in enumerate(dry["trace"]) if p != 0 and len(b) >= plan["header"].point_format.size]
+                picks = set()
+                if data_writes:
+                    picks.update([data_writes[0], data_writes[-1], rng.choice(data_writes), rng.choice(data_writes)])
+                    if len(data_writes) > 2:
+                        picks.add(data_writes[len(data_writes) // 2])
+                picks.add(rng.randrange(nw))
+                for fa in sorted(picks):
+                    for policy in ("with", "continue", "retry"):
+                        # (a) nothing stored: any continuation; (b) torn (bytes stored): only close / __exit__ follows
+                        keep = rng.choice(keeps) if policy == "with" else keeps[0]
+                        try:
+                            run = _fault_run(plan, policy, fa, keep)
+                        except Exception as ex:
+                            run = {"error": f"{type(ex).__name__}: {ex}"}
+                        out.append((plan, policy, fa, run))
+    return out
+
+
+def describe_fault(plan, policy, fa, run):
+    if plan.get("header") is None:
+        return {"kind": plan["kind"], "volume": plan.get("volume")}
+    d = dict(lasio.describe_header(plan["header"]), kind=plan["kind"], chunks=plan["sizes"], evlrs=len(plan["evl"] or []), policy=policy,
+             failing_write=fa)
+    if plan["kind"] == "appender":
+        d["orig_points"] = len(plan["orig"])
+    if run.get("fault"):
+        d["fault"] = {"position": run["fault"][1], "bytes_asked": run["fault"][2], "bytes_stored": run["fault"][3], "raised_in": run["where"]}
+    return d
+
+
 _DATA = None
+_FAULTS = None
 
 
 def data(ctx):
     global _DATA
     if _DATA is None:
         _DATA = []
-        for si in range(ctx.n(30, 300)):
+        for si in range(ctx.n(40, 340)):
             try:
                 s = gen_session(ctx, TEMPLATES[si % len(TEMPLATES)])
             except Exception as ex:
-                _DATA.append({"error": repr(ex)})
+                import traceback
+                _DATA.append({"error": repr(ex) + " " + traceback.format_exc()[-400:]})
                 continue
             s["images"] = images_of(ctx, s)
             _DATA.append(s)
     return _DATA
 
 
+def faults(ctx):
+    global _FAULTS
+    if _FAULTS is None:
+        _FAULTS = fault_cases(ctx)
+    return _FAULTS
+
+
 def correspond(ctx):
-    ctx.extra["rule"] = ("sessions: LasData.write, chunked LasWriter (1-4 chunks incl. empty), LasAppender on existing files; every version, +-VLRs, "
-                         "+-EVLRs, headers with stale statistics; low-level writes recorded by a logging stream; crash images after every write call, "
-                         "at every byte inside the header (re)writes and the write before the last, and truncations of the complete file (all lengths "
-                         "for files <= 700 bytes, dense around the header otherwise). non-trivial = image length > 227; distinct by image bytes")
+    ctx.extra["rule"] = ("sessions: LasData.write, LasWriter sessions (class or laspy.open, chunks incl. empty ones, EVLRs, chunks after the EVLRs / after close "
+                         "which must be refused), appender sessions (class or laspy.open, laz_backend None/()), every version x kind with VLRs, +-EVLRs, stale "
+                         "statistics, 25% with non-ASCII header strings / VLR descriptions written with encoding_errors=ignore/replace; low-level writes "
+                         "recorded by a logging stream; crash images after every write call, at every byte inside writes of <= 48 bytes (the header is written "
+                         "field by field) and a dense sample of the longer ones, truncations at EVERY length up to offset_to_point_data + 2 records and from "
+                         "the last 2 records to the end; final images of fault sequences (one torn write, then continued use). non-trivial = image length "
+                         "> 227; distinct by image bytes (each distinct image is evaluated once)")
     dis = []
-    cmds, meta = [], []
+    cmds, meta, seen = [], [], set()
     for s in data(ctx):
         if "error" in s:
             continue
         for label, img in s["images"]:
+            if img in seen:
+                continue
+            seen.add(img)
             cmds.append("read_file " + common.hexb(img))
             meta.append((s, label, img))
+    for plan, policy, fa, run in faults(ctx):
+        img = run.get("final")
+        if img is None or len(img) > 20000 or img in seen:
+            continue
+        seen.add(img)
+        cmds.append("read_file " + common.hexb(img))
+        meta.append(({"kind": "fault-" + plan["kind"], "desc": describe_fault(plan, policy, fa, run)}, "final image of a fault sequence", img))
     outs = common.run_model(cmds)
     for (s, label, img), mo in zip(meta, outs):
         im = read_image(img)
+        if im[0] == "skipped":
+            continue
         ctx.traces += 1
         ctx.case(img, nontrivial=len(img) > 227, sample={"session": s["desc"], "image": label, "len": len(img), "impl": im[0] if im[0] != "ok" else f"ok {len(im[1]) // max(im[2], 1)} points"})
         ctx.count("image:" + label.split(" ")[0] + ":" + im[0])
@@ -292,10 +679,35 @@ def correspond(ctx):
         if not good and t[0] == "err" and im[0] == "ok" and nonascii_user_id(img):
             ctx.count("outside-model:non-ascii-user-id-valid-utf8")
             continue
+        if not good and t[0] == "ok" and im == ("err", "EOverflow") and huge_evlr_length(img):
+            ctx.count("outside-model:evlr-length-beyond-2^63")
+            continue
         if not good:
             dis.append({"kind": f"read of crash image ({s['kind']}, {label.split(' ')[0]})", "input": {"session": s["desc"], "image": label, "image_hex": img.hex() if len(img) < 3000 else img[:3000].hex()},
                         "model": mo[:60], "impl": im[0] + (" " + im[1] if im[0] == "err" else "")})
     return dis
+
+
+def judge(got, ps, intended):
+    """the property on one reading: whole records, a prefix of what the session accepted"""
+    if ps and len(got) % ps:
+        return f"{len(got)} bytes of records is not a whole number of {ps}-byte records"
+    if intended[:len(got)] != got:
+        n = len(got) // max(ps, 1)
+        bad = next((i for i in range(n) if got[i * ps:(i + 1) * ps] != intended[i * ps:(i + 1) * ps]), n)
+        return (f"{n} records returned; they are not a prefix of the {len(intended) // max(ps, 1)} records the session accepted "
+                f"(record {bad} was never written at that position)")
+    return None
+
+
+def _guarded(add, name, fn):
+    """runs one section of the search; if the section itself cannot be run on this tree (an exception escaping from laspy where the
+    unchanged tree raises none), that is reported as a failing input instead of losing the findings of the other sections"""
+    try:
+        fn()
+    except Exception as ex:
+        import traceback
+        add(f"search section '{name}' could not be run on this tree", {"section": name}, f"{type(ex).__name__}: {ex} | " + traceback.format_exc()[-700:])
 
 
 def search(ctx, seeds):
@@ -305,31 +717,81 @@ def search(ctx, seeds):
         if kind not in seen:
             seen.add(kind)
             failing.append({"kind": kind, "input": inp, "observed": why})
-    for s in data(ctx):
-        if "error" in s:
-            add("session failed", {}, s["error"])
-            continue
-        why = check_discipline(s)
-        if why:
-            add("write discipline: " + why.split(",")[0][:60], {"session": s["desc"], "trace": [(p, len(b)) for p, b in s["trace"]]}, why)
-        intended = s["intended"]
-        for label, img in s["images"]:
-            im = read_image(img)
-            if im[0] == "hang":
-                add("reader does not terminate", {"session": s["desc"], "image": label, "image_hex": img.hex()[:6000]}, "laspy.read still running after 10 s")
-            elif im[0] == "ok":
-                got = im[1]
-                if intended[:len(got)] != got or (im[2] and len(got) % im[2]):
-                    n = len(got) // max(im[2], 1)
-                    add(f"{s['kind']}: image '{label.split(' ')[0]}' yields points that were not written", {"session": s["desc"], "image": label, "image_hex": img.hex()[:6000]},
-                        f"{n} records returned; they are not a prefix of the {len(intended) // max(s['ps'], 1)} records being stored")
+    def sec_crash_images_and_truncations():
+        done = set()
+        nroute = 0
+        for s in data(ctx):
+            if "error" in s:
+                add("session failed", {}, s["error"])
+                continue
+            why = check_discipline(s) if not s.get("refused") else None
+            if why:
+                add("write discipline: " + why.split(",")[0][:60], {"session": s["desc"], "trace": [(p, len(b)) for p, b in s["trace"]][:200]}, why)
+            intended = s["intended"]
+            # the complete file must give back everything the session accepted
+            fin = read_image(s["final"])
+            if fin[0] == "ok" and fin[1] != intended and "close_raised" not in s["desc"]:
+                add(f"{s['kind']}: the complete file does not hold the accepted points", {"session": s["desc"], "image_hex": s["final"].hex()[:6000]},
+                    judge(fin[1], fin[2], intended) or f"{len(fin[1]) // max(fin[2], 1)} records read, {len(intended) // max(s['ps'], 1)} accepted")
+            elif fin[0] == "err" and "close_raised" not in s["desc"]:
+                add(f"{s['kind']}: the complete file cannot be read", {"session": s["desc"], "image_hex": s["final"].hex()[:6000]}, fin[1])
+            for label, img in s["images"]:
+                key = (img, intended)
+                if key in done:
+                    continue
+                done.add(key)
+                im = read_image(img)
+                cls = label.split(" ")[0]
+                if im[0] == "hang":
+                    add("reader does not terminate", {"session": s["desc"], "image": label, "image_len": len(img), "image_hex": img.hex()[:6000]},
+                        f"laspy.read of this {len(img)}-byte image was still running after {READ_LIMIT} s")
+                elif im[0] == "ok":
+                    why = judge(im[1], im[2], intended)
+                    if why:
+                        add(f"{s['kind']}: image '{cls}' yields points that were not written", {"session": s["desc"], "image": label, "image_hex": img.hex()[:6000]}, why)
+                # the other public reading routes, on a sample
+                if im[0] != "skipped" and len(done) % 9 == 0 and not (im[0] == "ok" and judge(im[1], im[2], intended)) and im[0] != "hang":
+                    route = ROUTES[nroute % len(ROUTES)]
+                    nroute += 1
+                    r = _with_timeout(lambda: _read_route(img, route), READ_LIMIT)
+                    ctx.count("route:" + route + ":" + r[0])
+                    if r[0] == "hang":
+                        add(f"reader does not terminate ({route})", {"session": s["desc"], "image": label, "route": route, "image_hex": img.hex()[:6000]},
+                            f"still running after {READ_LIMIT} s")
+                    elif r[0] == "ok":
+                        why = judge(r[1][0], r[1][1], intended)
+                        if why:
+                            add(f"{s['kind']}: image '{cls}' read through {route} yields points that were not written",
+                                {"session": s["desc"], "image": label, "route": route, "image_hex": img.hex()[:6000]}, why)
+    _guarded(add, 'crash images and truncations', sec_crash_images_and_truncations)
+    def sec_fault_sequences():
+        for plan, policy, fa, run in faults(ctx):
+            d = describe_fault(plan, policy, fa, run)
+            if "error" in run:
+                add("fault sequence: the session could not be run", d, run["error"])
+                continue
+            ctx.case(("fault", run["final"][:4000], len(run["final"])), nontrivial=run["fault"] is not None)
+            ctx.count(f"fault:{plan['kind']}:{policy}:{run['where']}")
+            why = fault_discipline(plan, run)
+            if why:
+                add(f"fault sequence ({plan['kind']}): write discipline", d, why)
+            img = run["final"]
+            r = _with_timeout(lambda: _read_plain(img), READ_LIMIT + len(img) / 2e6)
+            if r[0] == "hang":
+                add("reader does not terminate (file left by a fault sequence)", d, "laspy.read still running")
+            elif r[0] == "ok":
+                why = judge(r[1][0], r[1][1], run["accepted"])
+                if why:
+                    tag = "exception leaves the with-block" if policy == "with" else f"caller goes on after a write in {run['where']} failed with nothing stored"
+                    add(f"fault sequence ({plan['kind']}, {tag}): points that were not written", dict(d, image_hex=img.hex()[:4000]), why)
+    _guarded(add, 'fault sequences', sec_fault_sequences)
     return failing[:8]
 
 
 def replay(ctx, data_):
     inp = data_.get("failing_input", {}).get("input", {})
     if "image_hex" not in inp:
-        print("nothing to replay")
+        print("nothing to replay (re-run ./check C19 with the same VERIF_SEED)")
         return 0
     im = read_image(bytes.fromhex(inp["image_hex"]))
     print("laspy.read of the image:", im[0], (len(im[1]) if im[0] == "ok" else im[1:]))
